@@ -49,11 +49,12 @@ def step (s : S) : List String → S × String
     ({ s with prof := some { subnets := parsePrefixes rest, ctr := Counter.new (nat! rps) 1000000000,
                              est := nat! est } }, "ok")
   | ["noprof"] => ({ s with prof := none }, "ok")
-  | ["mw", limited, now, is4, val, qt, len] =>
+  | ["mw", limited, now, is4, val, qt, len, isProf] =>
     let respLen := if len == "-" then none else some (nat! len)
-    let (m, e) := serve s.cfg (bool! limited) { glob := s.st, prof := s.prof } (int! now) 2
+    let (m, e) := serve s.cfg (bool! limited)
+      { glob := s.st, prof := if bool! isProf then s.prof else none } (int! now) 2
       { is4 := bool! is4, val := nat! val } (nat! qt) respLen
-    ({ s with st := m.glob, prof := m.prof }, showE e)
+    ({ s with st := m.glob, prof := if bool! isProf then m.prof else s.prof }, showE e)
   | _ => (s, "bad-op")
 
 def main : IO Unit := loop step {}
